@@ -122,6 +122,11 @@ impl FlopExhaustiveEvaluatorIterator {
             return None;
         }
 
+        // a player without any hole cards to choose from cannot be dealt in.
+        if self.player_entries.iter().any(|entry| entry.is_empty()) {
+            return None;
+        }
+
         let turn = self.current_deck[self.current_turn_index as usize];
         let river = self.current_deck[self.current_river_index as usize];
 
